@@ -20,6 +20,7 @@ import (
 	. "verifharness/hlib"
 
 	erpc "github.com/henrylee2cn/erpc/v6"
+	"github.com/henrylee2cn/erpc/v6/proto/httproto"
 	"github.com/henrylee2cn/erpc/v6/proto/jsonproto"
 	"github.com/henrylee2cn/erpc/v6/proto/pbproto"
 	"github.com/henrylee2cn/erpc/v6/socket"
@@ -558,6 +559,42 @@ func runNotGoon(c *caseCfg) observedSet {
 	return observedSet{frames: frames, disconnected: true}
 }
 
+// runHTTPHeaderError: over httproto a request whose header block breaks AFTER the
+// Content-Type line: Unpack fails before it asks for the body (binding never runs) but the
+// body codec is already set, so the read loop does not return; handle() runs with no plugin
+// container and no handler.
+var httpPF erpc.ProtoFunc
+
+func runHTTPHeaderError(c *caseCfg) observedSet {
+	if httpPF == nil {
+		httpPF = httproto.NewHTTProtoFunc()
+	}
+	cc, sc := TCPPair()
+	sess, st := peerPlain.ServeConn(sc, httpPF)
+	if !st.OK() {
+		Must(errors.New("ServeConn: " + st.String()))
+	}
+	lastProto = "http"
+	rp := NewRawPeer(cc, socket.ProtoFunc(httpPF))
+	req := "POST " + callPath + " HTTP/1.1\r\nX-Seq: " + strconv.Itoa(int(c.seq)) + "\r\nX-Mtype: " + strconv.Itoa(int(c.ty)) +
+		"\r\nContent-Type: application/json\r\nthis line has no colon\r\n\r\n"
+	rp.Conn.Write([]byte(req))
+	var frames []reply
+	ended := false
+	if c.ty == erpc.TypeCall {
+		m, err := rp.Recv(10 * time.Second)
+		if err != nil {
+			ended = true
+		} else {
+			frames = append(frames, toReply(m))
+		}
+	} else {
+		// nothing is expected back: let the read loop take the request first
+		WaitUntil(10*time.Second, func() bool { return gotCount(sess) > 0 || !sess.Health() })
+	}
+	return finish([]*caseCfg{c}, sess, rp, frames, ended)
+}
+
 // ---------------------------------------------------------------- case -> model input / observation
 
 func causeVal(text string, lib bool) string {
@@ -595,6 +632,9 @@ func (c *caseCfg) inputs() string {
 	}
 	if c.env == "hdrerr" || c.env == "hdrpanic" {
 		read = VL(VS("hdr"), VBool(false))
+	}
+	if c.env == "hdrerr-codec" {
+		read = VL(VS("hdr"), VBool(true))
 	}
 	var h string
 	switch c.handler.kind {
@@ -1059,9 +1099,17 @@ func main() {
 			c.smEmpty = true
 			record(c, runNormal(c), "empty-method")
 		case 7:
-			c := newCase()
-			c.ty = erpc.TypeReply
-			record(c, runNormal(c), "unmatched-reply")
+			if cfg.Rng.Intn(2) == 0 {
+				c := newCase()
+				c.ty = erpc.TypeReply
+				record(c, runNormal(c), "unmatched-reply")
+			} else {
+				c := newCase()
+				c.env = "hdrerr-codec"
+				c.body = "empty"
+				c.ty = []byte{erpc.TypeCall, erpc.TypeCall, erpc.TypePush, 9}[cfg.Rng.Intn(4)]
+				record(c, runHTTPHeaderError(c), "header-error-codec-set")
+			}
 		}
 	}
 	// 5. exhausted goroutine pool (process-global: last)
